@@ -56,9 +56,15 @@ func (p *prop) Run(line string) core.Outcome {
 	switch f[0] {
 	case "adapt", "madapt", "perm", "eqv", "leak", "site":
 		// cases that run the adapter can die of a fatal (unrecoverable) Go error
-		if noteCase(line) {
+		switch noteCase(line) {
+		case "crash":
 			return core.Outcome{Impl: "crash", Tags: []string{"adapt:crash"}, Failures: []core.Failure{{Case: line, Class: "adapter-crash",
 				What: "the process died of a fatal, unrecoverable error while this case was running: " + clip(lastCrash, 1200)}}}
+		case "hang":
+			return core.Outcome{Impl: "hang", Tags: []string{"adapt:hang"}, Failures: []core.Failure{{Case: line, Class: "adapter-hang",
+				What: fmt.Sprintf("adapting did not terminate within %v (the run was restarted without this case); case %s", adaptTimeout, clip(line, 300))}}}
+		case "skip":
+			return core.Outcome{Impl: "skipped", Tags: []string{"skipped:too-many-crashes-or-hangs", "trivial"}}
 		}
 		defer caseDone()
 	}
